@@ -115,6 +115,37 @@ theorem checkConsistency_true_iff_entries (s : Sequence) :
     rw [gapFree_iff_perm, hk]
     exact h5
 
+/-! ### positions -/
+
+theorem mem_oneTo (n : ℕ) (k : ℤ) : k ∈ oneTo n ↔ 1 ≤ k ∧ k ≤ n := by
+  unfold oneTo
+  simp only [List.mem_map, List.mem_range]
+  constructor
+  · rintro ⟨i, hi, rfl⟩
+    omega
+  · rintro ⟨h1, h2⟩
+    exact ⟨(k - 1).toNat, by omega, by omega⟩
+
+theorem oneTo_nodup (n : ℕ) : (oneTo n).Nodup := by
+  unfold oneTo
+  apply List.Nodup.map
+  · intro a b h
+    simp only at h
+    omega
+  · exact List.nodup_range
+
+/-- with no position stored twice, "the positions are a permutation of 1..N" says: position `k` is
+    filled exactly for `1 ≤ k ≤ N`, `N` the number of stored entries -/
+theorem filled_iff_positions {s : Sequence} (hwf : Dict.WF s.data) :
+    Filled s ↔ ∀ k : ℤ, (Dict.get? s.data k).isSome = true ↔ (1 ≤ k ∧ k ≤ s.data.length) := by
+  unfold Filled
+  rw [List.perm_ext_iff_of_nodup hwf (oneTo_nodup _)]
+  constructor
+  · intro h k
+    rw [Dict.get?_isSome_iff, h k, mem_oneTo]
+  · intro h k
+    rw [← Dict.get?_isSome_iff, h k, mem_oneTo]
+
 /-! ### when it raises -/
 
 /-- the entries of a validated store all report a sample rate -/
@@ -142,14 +173,15 @@ theorem checkConsistency_of_not_allSame (s : Sequence) (srs : List Val) (hSR : D
   unfold Sequence.checkConsistency
   simp [hSR, h1, hs]
 
-/-- the sample rates agree and a `channels` query raises: that exception -/
+/-- the sample rates agree and a `channels` query raises: False for SequenceConsistencyError (an
+    inconsistent stored subsequence), that exception otherwise -/
 theorem checkConsistency_of_channels_error (s : Sequence) (srs : List Val) (er : Err)
     (hSR : Dict.has s.awgspecs "SR" = true)
     (h1 : (Dict.vals s.data).mapM Entry.getSR = .ok srs) (hs : Element.allSame srs = true)
     (h2 : (Dict.vals s.data).mapM Entry.channels = .error er) :
-    s.checkConsistency = .error er := by
+    s.checkConsistency = if er = .consistency then .ok false else .error er := by
   unfold Sequence.checkConsistency
-  simp [hSR, h1, hs, h2]
+  by_cases he : er = .consistency <;> simp [hSR, h1, hs, h2, he]
 
 /-- the sample rates agree and every `channels` query answers: a boolean -/
 theorem checkConsistency_of_channels_ok (s : Sequence) (srs : List Val) (chans : List (List Chan))
@@ -160,13 +192,22 @@ theorem checkConsistency_of_channels_ok (s : Sequence) (srs : List Val) (chans :
   unfold Sequence.checkConsistency
   cases hc : allEqLast (chans.map channelListSorter) <;> simp [hSR, h1, hs, h2, hc]
 
+/-- no stored subsequence's `channels` query raises anything but SequenceConsistencyError -/
+def NoHardError (s : Sequence) : Prop :=
+  ∀ x ∈ s.data, ∀ (sub : SubSeq) (er : Err), x.2 = .sub sub → sub.channels = .error er → er = .consistency
+
+/-- every stored subsequence has a sample rate and at least one element -/
+def SubsSound (s : Sequence) : Prop :=
+  ∀ x ∈ s.data, ∀ sub : SubSeq, x.2 = .sub sub → Dict.has sub.awgspecs "SR" = true ∧ sub.data ≠ []
+
 /-- on a validated store with a sample rate set: `checkConsistency` returns a boolean, or the
-    sample rates agree and it raises what a stored subsequence's `channels` query raises -/
+    sample rates agree and it raises what a stored subsequence's `channels` query raises - which is
+    then not SequenceConsistencyError -/
 theorem checkConsistency_cases {s : Sequence} (hv : G11.InnerValidated s)
     (hSR : Dict.has s.awgspecs "SR" = true) :
     (∃ b, s.checkConsistency = .ok b) ∨
       (SameSR s ∧ ∃ x ∈ s.data, ∃ (sub : SubSeq) (er : Err), x.2 = .sub sub ∧ sub.channels = .error er ∧
-        s.checkConsistency = .error er) := by
+        er ≠ .consistency ∧ s.checkConsistency = .error er) := by
   obtain ⟨srs, h1⟩ := G3.mapM_ok_of_forall_ex Entry.getSR (Dict.vals s.data) (fun en hen => by
     obtain ⟨x, hx, rfl⟩ := List.mem_map.mp hen
     exact getSR_ok_of_validated hv x hx)
@@ -174,51 +215,144 @@ theorem checkConsistency_cases {s : Sequence} (hv : G11.InnerValidated s)
   · cases h2 : (Dict.vals s.data).mapM Entry.channels with
     | ok chans => exact .inl ⟨_, checkConsistency_of_channels_ok s srs chans hSR h1 hs h2⟩
     | error er =>
-      right
-      obtain ⟨v, hvv⟩ := (mapM_allSame_iff Entry.getSR (Dict.vals s.data)).mp ⟨srs, h1, hs⟩
-      refine ⟨⟨v, fun x hx => hvv _ (List.mem_map_of_mem hx)⟩, ?_⟩
-      obtain ⟨en, hen, herr⟩ := G3.mapM_error_mem _ _ _ h2
-      obtain ⟨x, hx, rfl⟩ := List.mem_map.mp hen
-      cases hx2 : x.2 with
-      | el e => rw [hx2] at herr; cases herr
-      | sub sub =>
-        rw [hx2] at herr
-        exact ⟨x, hx, sub, er, hx2, herr, checkConsistency_of_channels_error s srs er hSR h1 hs h2⟩
+      have hcc := checkConsistency_of_channels_error s srs er hSR h1 hs h2
+      by_cases he : er = .consistency
+      · left
+        rw [if_pos he] at hcc
+        exact ⟨false, hcc⟩
+      · right
+        rw [if_neg he] at hcc
+        obtain ⟨v, hvv⟩ := (mapM_allSame_iff Entry.getSR (Dict.vals s.data)).mp ⟨srs, h1, hs⟩
+        refine ⟨⟨v, fun x hx => hvv _ (List.mem_map_of_mem hx)⟩, ?_⟩
+        obtain ⟨en, hen, herr⟩ := G3.mapM_error_mem _ _ _ h2
+        obtain ⟨x, hx, rfl⟩ := List.mem_map.mp hen
+        cases hx2 : x.2 with
+        | el e => rw [hx2] at herr; cases herr
+        | sub sub =>
+          rw [hx2] at herr
+          exact ⟨x, hx, sub, er, hx2, herr, he, hcc⟩
   · exact .inl ⟨false, checkConsistency_of_not_allSame s srs hSR h1 (by simpa using hs)⟩
 
-/-- ... and it never raises when every stored subsequence answers its `channels` query -/
-theorem checkConsistency_ok_of_subsAnswer {s : Sequence} (hv : G11.InnerValidated s)
-    (hSR : Dict.has s.awgspecs "SR" = true) (ha : SubsAnswer s) : ∃ b, s.checkConsistency = .ok b := by
-  rcases checkConsistency_cases hv hSR with h | ⟨_, x, hx, sub, er, hx2, herr, _⟩
+/-- it never raises when no stored subsequence raises anything but SequenceConsistencyError -/
+theorem checkConsistency_ok_of_noHardError {s : Sequence} (hv : G11.InnerValidated s)
+    (hSR : Dict.has s.awgspecs "SR" = true) (ha : NoHardError s) : ∃ b, s.checkConsistency = .ok b := by
+  rcases checkConsistency_cases hv hSR with h | ⟨_, x, hx, sub, er, hx2, herr, hne, _⟩
   · exact h
-  · obtain ⟨chs, hc⟩ := ha x hx sub hx2
-    rw [hc] at herr; cases herr
+  · exact absurd (ha x hx sub er hx2 herr) hne
 
-/-- exactly when it raises: the sample rates agree (so the channel query is reached) and some
-    stored subsequence does not answer -/
+theorem noHardError_of_subsAnswer {s : Sequence} (ha : SubsAnswer s) : NoHardError s := by
+  intro x hx sub er hx2 herr
+  obtain ⟨chs, hc⟩ := ha x hx sub hx2
+  rw [hc] at herr; cases herr
+
+/-- ... in particular when every stored subsequence answers its `channels` query -/
+theorem checkConsistency_ok_of_subsAnswer {s : Sequence} (hv : G11.InnerValidated s)
+    (hSR : Dict.has s.awgspecs "SR" = true) (ha : SubsAnswer s) : ∃ b, s.checkConsistency = .ok b :=
+  checkConsistency_ok_of_noHardError hv hSR (noHardError_of_subsAnswer ha)
+
+/-- what the `channels` query of a stored subsequence with validated elements can raise:
+    SequenceConsistencyError (it is inconsistent), or KeyError - and the latter only when it has no
+    sample rate or no element at all -/
+theorem subChannels_error_cases (sub : SubSeq) (hval : ∀ y ∈ sub.data, ∃ m, y.2.validate = .ok m) (er : Err)
+    (h : sub.channels = .error er) :
+    er = .consistency ∨ (er = .key ∧ (Dict.has sub.awgspecs "SR" = false ∨ sub.data = [])) := by
+  unfold SubSeq.channels at h
+  cases hcc : sub.checkConsistency with
+  | error e =>
+    rw [hcc] at h
+    simp only [bind, Except.bind, Except.error.injEq] at h
+    subst h
+    unfold SubSeq.checkConsistency at hcc
+    by_cases hsr : Dict.has sub.awgspecs "SR" = true
+    · exfalso
+      simp only [hsr, Bool.not_true, Bool.false_eq_true, if_false] at hcc
+      obtain ⟨srs, h1⟩ := G3.mapM_ok_of_forall_ex (fun e : Element => e.getSR) (Dict.vals sub.data) (fun e he => by
+        obtain ⟨y, hy, rfl⟩ := List.mem_map.mp he
+        obtain ⟨m, hm⟩ := hval y hy
+        exact ⟨m.1, by simp [Element.getSR, hm, Except.map]⟩)
+      rw [h1] at hcc
+      simp only at hcc
+      split at hcc
+      · cases hcc
+      · split at hcc <;> cases hcc
+    · have hsr' : Dict.has sub.awgspecs "SR" = false := by simpa using hsr
+      simp only [hsr', Bool.not_false, if_true, Except.error.injEq] at hcc
+      exact .inr ⟨hcc.symm, .inl hsr'⟩
+  | ok v =>
+    rw [hcc] at h
+    cases v with
+    | false =>
+      simp only [bind, Except.bind, throw, throwThe, MonadExceptOf.throw, Bool.not_false, if_true,
+        Except.error.injEq] at h
+      exact .inl h.symm
+    | true =>
+      cases hg : Dict.get? sub.data 1 with
+      | some e => rw [hg] at h; simp [bind, Except.bind, pure, Except.pure] at h
+      | none =>
+        rw [hg] at h
+        simp only [bind, Except.bind, throw, throwThe, MonadExceptOf.throw, Bool.not_true, Bool.false_eq_true,
+          if_false, Except.error.injEq] at h
+        refine .inr ⟨h.symm, .inr ?_⟩
+        -- a consistent subsequence without position 1 is empty
+        unfold SubSeq.checkConsistency at hcc
+        split at hcc
+        · cases hcc
+        · split at hcc
+          · cases hcc
+          · split at hcc
+            · cases hcc
+            · split at hcc
+              · cases hcc
+              · simp only [Except.ok.injEq] at hcc
+                have hperm := (gapFree_iff_perm _).mp hcc
+                cases hd : sub.data with
+                | nil => rfl
+                | cons y ys =>
+                  exfalso
+                  have h1 : (1 : ℤ) ∈ Dict.keys sub.data := by
+                    rw [hperm.mem_iff, mem_oneTo]
+                    simp [Dict.keys, hd]
+                  rw [← Dict.get?_isSome_iff, hg] at h1
+                  cases h1
+
+/-- stored subsequences with a sample rate and at least one element (and validated elements) raise
+    nothing but SequenceConsistencyError -/
+theorem noHardError_of_subsSound {s : Sequence} (hv : G11.InnerValidated s) (ha : SubsSound s) : NoHardError s := by
+  intro x hx sub er hx2 herr
+  rcases subChannels_error_cases sub ((hv x hx).2 sub hx2) er herr with h | ⟨_, h | h⟩
+  · exact h
+  · rw [(ha x hx sub hx2).1] at h; cases h
+  · exact absurd h (ha x hx sub hx2).2
+
+/-- exactly when it raises: the sample rates agree (so the channel queries are reached) and the
+    first `channels` query that fails (in store order) raises something other than
+    SequenceConsistencyError -/
 theorem checkConsistency_raises_iff {s : Sequence} (hv : G11.InnerValidated s)
     (hSR : Dict.has s.awgspecs "SR" = true) :
-    (∃ er, s.checkConsistency = .error er) ↔ SameSR s ∧ ¬ SubsAnswer s := by
+    (∃ er, s.checkConsistency = .error er) ↔
+      SameSR s ∧ ∃ er, er ≠ .consistency ∧ (Dict.vals s.data).mapM Entry.channels = .error er := by
+  obtain ⟨srs, h1⟩ := G3.mapM_ok_of_forall_ex Entry.getSR (Dict.vals s.data) (fun en hen => by
+    obtain ⟨x, hx, rfl⟩ := List.mem_map.mp hen
+    exact getSR_ok_of_validated hv x hx)
   constructor
   · rintro ⟨er, he⟩
-    rcases checkConsistency_cases hv hSR with ⟨b, hb⟩ | ⟨hsr, x, hx, sub, er', hx2, herr, _⟩
-    · rw [hb] at he; cases he
-    · refine ⟨hsr, fun ha => ?_⟩
-      obtain ⟨chs, hc⟩ := ha x hx sub hx2
-      rw [hc] at herr; cases herr
-  · rintro ⟨⟨v, hvv⟩, hna⟩
-    obtain ⟨srs, h1, hs⟩ := (mapM_allSame_iff Entry.getSR (Dict.vals s.data)).mpr ⟨v, fun en hen => by
+    by_cases hs : Element.allSame srs = true
+    · obtain ⟨v, hvv⟩ := (mapM_allSame_iff Entry.getSR (Dict.vals s.data)).mp ⟨srs, h1, hs⟩
+      refine ⟨⟨v, fun x hx => hvv _ (List.mem_map_of_mem hx)⟩, ?_⟩
+      cases h2 : (Dict.vals s.data).mapM Entry.channels with
+      | ok chans => rw [checkConsistency_of_channels_ok s srs chans hSR h1 hs h2] at he; cases he
+      | error er' =>
+        rw [checkConsistency_of_channels_error s srs er' hSR h1 hs h2] at he
+        by_cases hc : er' = .consistency
+        · rw [if_pos hc] at he; cases he
+        · exact ⟨er', hc, rfl⟩
+    · rw [checkConsistency_of_not_allSame s srs hSR h1 (by simpa using hs)] at he; cases he
+  · rintro ⟨⟨v, hvv⟩, er, hne, h2⟩
+    obtain ⟨srs', h1', hs⟩ := (mapM_allSame_iff Entry.getSR (Dict.vals s.data)).mpr ⟨v, fun en hen => by
       obtain ⟨x, hx, rfl⟩ := List.mem_map.mp hen
       exact hvv x hx⟩
-    cases h2 : (Dict.vals s.data).mapM Entry.channels with
-    | error er => exact ⟨er, checkConsistency_of_channels_error s srs er hSR h1 hs h2⟩
-    | ok chans =>
-      exfalso
-      apply hna
-      intro x hx sub hx2
-      obtain ⟨c, _, hc⟩ := mapM_mem _ _ _ h2 x.2 (List.mem_map_of_mem hx)
-      rw [hx2] at hc
-      exact ⟨c, hc⟩
+    refine ⟨er, ?_⟩
+    rw [checkConsistency_of_channels_error s srs' er hSR h1' hs h2, if_neg hne]
 
 /-! ### channel *sets* -/
 
@@ -284,37 +418,6 @@ theorem subsAnswer_of_elementsOnly {s : Sequence} (h : ∀ x ∈ s.data, ∃ e, 
   obtain ⟨e, he⟩ := h x hx
   rw [he] at hs; cases hs
 
-/-! ### positions -/
-
-theorem mem_oneTo (n : ℕ) (k : ℤ) : k ∈ oneTo n ↔ 1 ≤ k ∧ k ≤ n := by
-  unfold oneTo
-  simp only [List.mem_map, List.mem_range]
-  constructor
-  · rintro ⟨i, hi, rfl⟩
-    omega
-  · rintro ⟨h1, h2⟩
-    exact ⟨(k - 1).toNat, by omega, by omega⟩
-
-theorem oneTo_nodup (n : ℕ) : (oneTo n).Nodup := by
-  unfold oneTo
-  apply List.Nodup.map
-  · intro a b h
-    simp only at h
-    omega
-  · exact List.nodup_range
-
-/-- with no position stored twice, "the positions are a permutation of 1..N" says: position `k` is
-    filled exactly for `1 ≤ k ≤ N`, `N` the number of stored entries -/
-theorem filled_iff_positions {s : Sequence} (hwf : Dict.WF s.data) :
-    Filled s ↔ ∀ k : ℤ, (Dict.get? s.data k).isSome = true ↔ (1 ≤ k ∧ k ≤ s.data.length) := by
-  unfold Filled
-  rw [List.perm_ext_iff_of_nodup hwf (oneTo_nodup _)]
-  constructor
-  · intro h k
-    rw [Dict.get?_isSome_iff, h k, mem_oneTo]
-  · intro h k
-    rw [← Dict.get?_isSome_iff, h k, mem_oneTo]
-
 /-! ### order of insertion -/
 
 theorem sameSR_perm {a b : Sequence} (hp : a.data.Perm b.data) : SameSR a ↔ SameSR b := by
@@ -344,34 +447,26 @@ theorem filled_perm {a b : Sequence} (hp : a.data.Perm b.data) : Filled a ↔ Fi
 theorem innerValidated_perm {a b : Sequence} (hp : a.data.Perm b.data) (h : G11.InnerValidated a) :
     G11.InnerValidated b := fun x hx => h x (hp.mem_iff.mpr hx)
 
-/-- the verdict (True / False / raises) does not depend on the order of the store -/
+theorem noHardError_perm {a b : Sequence} (hp : a.data.Perm b.data) : NoHardError a ↔ NoHardError b := by
+  unfold NoHardError
+  constructor
+  · intro h x hx; exact h x (hp.mem_iff.mpr hx)
+  · intro h x hx; exact h x (hp.mem_iff.mp hx)
+
+/-- the verdict does not depend on the order of the store - as long as no stored subsequence raises
+    anything but SequenceConsistencyError (with such a subsequence the first failing query in store
+    order decides between False and that exception) -/
 theorem checkConsistency_perm {a b : Sequence} (hp : a.data.Perm b.data) (hv : G11.InnerValidated a)
-    (ha : Dict.has a.awgspecs "SR" = true) (hb : Dict.has b.awgspecs "SR" = true) :
-    (a.checkConsistency = .ok true ↔ b.checkConsistency = .ok true) ∧
-    (a.checkConsistency = .ok false ↔ b.checkConsistency = .ok false) ∧
-    ((∃ er, a.checkConsistency = .error er) ↔ ∃ er, b.checkConsistency = .error er) := by
+    (ha : Dict.has a.awgspecs "SR" = true) (hb : Dict.has b.awgspecs "SR" = true) (hn : NoHardError a) :
+    a.checkConsistency = b.checkConsistency := by
   have hvb := innerValidated_perm hp hv
   have ht : a.checkConsistency = .ok true ↔ b.checkConsistency = .ok true := by
     rw [checkConsistency_true_iff_entries, checkConsistency_true_iff_entries, sameSR_perm hp,
       sameChannels_perm hp, filled_perm hp]
     simp [ha, hb]
-  have hr : (∃ er, a.checkConsistency = .error er) ↔ ∃ er, b.checkConsistency = .error er := by
-    rw [checkConsistency_raises_iff hv ha, checkConsistency_raises_iff hvb hb, sameSR_perm hp, subsAnswer_perm hp]
-  refine ⟨ht, ?_, hr⟩
-  constructor
-  · intro h
-    cases hcb : b.checkConsistency with
-    | error er => obtain ⟨er', he⟩ := hr.mpr ⟨er, hcb⟩; rw [h] at he; cases he
-    | ok v =>
-      cases v with
-      | false => rfl
-      | true => have := ht.mpr hcb; rw [h] at this; cases this
-  · intro h
-    cases hca : a.checkConsistency with
-    | error er => obtain ⟨er', he⟩ := hr.mp ⟨er, hca⟩; rw [h] at he; cases he
-    | ok v =>
-      cases v with
-      | false => rfl
-      | true => have := ht.mp hca; rw [h] at this; cases this
+  obtain ⟨va, hca⟩ := checkConsistency_ok_of_noHardError hv ha hn
+  obtain ⟨vb, hcb⟩ := checkConsistency_ok_of_noHardError hvb hb ((noHardError_perm hp).mp hn)
+  rw [hca, hcb] at ht ⊢
+  cases va <;> cases vb <;> simp_all
 
 end BB.G12
